@@ -8,7 +8,7 @@ from .. import bind
 from ..core import Check, Space
 
 BEHAVIOURS = ("identity", "md", "rename", "addarg", "replarg", "md+rename")
-PLACES = ("class", "method", "both", "func", "prop", "func+method")
+PLACES = ("class", "method", "both", "both-same", "func", "prop", "func+method")
 
 MODEL_SRC = '''
 from __future__ import annotations
@@ -44,9 +44,15 @@ def _act(kind, owner, behaviour):
 '''
 
 
-def class_src(name, place, beh, members, inherit=False):
+def class_src(name, place, beh, members, inherit=False, generic=False):
     deco_c = f"@func_adl_callback(_act('class', '{name}', '{beh}'))\n" if place in ("class", "both") else ""
     deco_m = f"    @func_adl_callback(_act('method', '{name}', '{beh}'))\n" if place in ("method", "both") else ""
+    pre = ""
+    if place == "both-same":
+        # ONE callback function object decorates the class and its method
+        pre = f"_cb_{name} = _act('shared', '{name}', '{beh}')\n"
+        deco_c = f"@func_adl_callback(_cb_{name})\n"
+        deco_m = f"    @func_adl_callback(_cb_{name})\n"
     if place == "func+method":
         deco_m = f"    @func_adl_callback(_act('method', '{name}', 'md'))\n"
     body = f"{deco_m}    def tgt(self, p: int, q: int = 5) -> float: ...\n"
@@ -56,10 +62,14 @@ def class_src(name, place, beh, members, inherit=False):
                 f"    def par(self): ...\n"
     for m in members:
         body += f"    {m}\n"
+    if generic:
+        # the methods live on a GENERIC base whose type variable is the return type of tgt; the subclass closes it
+        body = body.replace("def tgt(self, p: int, q: int = 5) -> float", "def tgt(self, p: int, q: int = 5) -> _GT")
+        return f"{pre}class {name}Base(Generic[_GT]):\n{body}{deco_c}class {name}({name}Base[float]):\n    pass\n"
     if inherit:
         # the methods live on an undecorated base class; the class-level callback is on the subclass
-        return f"class {name}Base:\n{body}{deco_c}class {name}({name}Base):\n    pass\n"
-    return f"{deco_c}class {name}:\n{body}"
+        return f"{pre}class {name}Base:\n{body}{deco_c}class {name}({name}Base):\n    pass\n"
+    return f"{pre}{deco_c}class {name}:\n{body}"
 
 
 USERCOLL_SRC = '''
@@ -73,7 +83,7 @@ class MyColl(ObjectStreamInternalMethods[_TT]):
 '''
 
 
-def build(place, beh, inherit=False, usercoll=False, redeclared=False):
+def build(place, beh, inherit=False, usercoll=False, redeclared=False, generic=False):
     src = MODEL_SRC
     if usercoll:
         src += USERCOLL_SRC
@@ -82,9 +92,10 @@ def build(place, beh, inherit=False, usercoll=False, redeclared=False):
         src += "@func_adl_callable(_act('stale', 'fn', 'md+rename'))\ndef fn(x: float, k: int = 3) -> float: ...\n"
     if redeclared and place == "func+method":
         src += "@func_adl_callable(_act('stale', 'good', 'md+rename'))\ndef good(x: Ev, k: int = 3) -> Iterable[Jet]: ...\n"
-    src += class_src("Trk", place, beh, [], inherit)
-    src += class_src("Jet", place, beh, ["def trks(self) -> Iterable[Trk]: ...", "def pt(self) -> float: ..."], inherit)
-    src += class_src("Ev", place, beh, ["def jets(self) -> Iterable[Jet]: ...", "def a(self) -> float: ..."], inherit)
+    src += "_GT = TypeVar('_GT')\n"
+    src += class_src("Trk", place, beh, [], inherit, generic)
+    src += class_src("Jet", place, beh, ["def trks(self) -> Iterable[Trk]: ...", "def pt(self) -> float: ..."], inherit, generic)
+    src += class_src("Ev", place, beh, ["def jets(self) -> Iterable[Jet]: ...", "def a(self) -> float: ..."], inherit, generic)
     if place == "func":
         src += f"@func_adl_callable(_act('func', 'fn', '{beh}'))\ndef fn(x: float, k: int = 3) -> float: ...\n"
     if place == "func+method":
@@ -134,7 +145,9 @@ class C09(Check):
             "(depth 1..3 inside Select / Where of typed collections, one or two sites per lambda, sites at two depths, "
             "no site at all) x stream operator Select / Where / SelectMany, on a fresh and on an already derived "
             "parent stream, with the methods defined on the decorated class or inherited from an undecorated base, with a "
-            "second (user) collection class registered, with the function declared twice under one name. Oracle: a reference walk of the user's lambda lists the call sites; every site must "
+            "second (user) collection class registered, with the function declared twice under one name, with one "
+            "callback function object on the class and on its method, with the methods on a generic base class "
+            "closed by the subclass. Oracle: a reference walk of the user's lambda lists the call sites; every site must "
             "produce a callback invocation, class-level before method-level, no invocation for anything that is not a "
             "site; every dictionary a callback attached must be on the args[0] chain below the new operator node and "
             "nothing else may be added there; the emitted call site must be what the callbacks returned. "
@@ -154,7 +167,7 @@ class C09(Check):
                         if (site[0].startswith("fnres")) != (place == "func+method"):
                             continue
                         for op in site[3]:
-                            for parent in ("root", "derived", "root+inherit", "root+usercoll"):
+                            for parent in ("root", "derived", "root+inherit", "root+usercoll", "root+genericbase"):
                                 out.append((place, beh, site[0], op, parent))
                             if place in ("func", "func+method"):
                                 out.append((place, beh, site[0], op, "root+redeclared"))
@@ -169,7 +182,8 @@ class C09(Check):
 
         place, beh, sname, op, parent = payload
         bind.reset_type_registries()
-        g = build(place, beh, parent.endswith("+inherit"), parent.endswith("+usercoll"), parent.endswith("+redeclared"))
+        g = build(place, beh, parent.endswith("+inherit"), parent.endswith("+usercoll"), parent.endswith("+redeclared"),
+                  parent.endswith("+genericbase"))
         site = next(s for s in SITES if s[0] == sname)
         calls = [call_text(place, var, arg) for (_, var, arg) in site[2]]
         body = site[1].format(c1=calls[0] if calls else "", c2=calls[1] if len(calls) > 1 else "")
@@ -210,6 +224,8 @@ class C09(Check):
                     expected.append(("class", owner))
                 if place in ("method", "both") and meth == "tgt":
                     expected.append(("method", owner))
+                if place == "both-same":
+                    expected.append(("shared", owner))
             elif kind == "func" and place in ("func", "func+method"):
                 expected.append(("func", owner))
             if kind == "call" and place == "func+method" and meth == "tgt":
@@ -349,7 +365,8 @@ def _chain_metadata(a):
 def _expected_call(place, beh, var, arg):
     if place == "func+method":
         return f"{var}.tgt({arg}, 5)"
-    kinds = {"class": ["class"], "method": ["method"], "both": ["class", "method"], "func": ["func"], "prop": ["prop"]}[place]
+    kinds = {"class": ["class"], "method": ["method"], "both": ["class", "method"], "both-same": ["shared", "shared"],
+             "func": ["func"], "prop": ["prop"]}[place]
     if place == "func":
         name, args = "fn", [f"{var}.other()", str(arg)]
         full = args + ([] if len(args) >= 2 else ["3"])
